@@ -174,7 +174,7 @@ def render(mut):
     return ast.unparse(t2)
 
 
-def run_one(prop, mut, tier, clauses):
+def run_one(prop, mut, tier, clauses, scale=None):
     d = tempfile.mkdtemp(prefix="artap-am-", dir="/tmp")
     try:
         shutil.copytree(os.path.join(REPO, "artap"), os.path.join(d, "artap"),
@@ -190,6 +190,8 @@ def run_one(prop, mut, tier, clauses):
         cmd = ["/venv/bin/python", os.path.join(VERIF, "pbt", "run.py"), prop, "--tier", tier]
         for c in clauses:
             cmd += ["--clause", c]
+        if scale:
+            cmd += ["--scale", str(scale)]
         try:
             p = subprocess.run(cmd, cwd=VERIF, env=env, capture_output=True, text=True, timeout=1500)
         except subprocess.TimeoutExpired:
@@ -198,6 +200,9 @@ def run_one(prop, mut, tier, clauses):
             det = [l.strip() for l in p.stdout.splitlines() if l.startswith("  ") and "[" in l][:1]
             return "killed", (det[0][:160] if det else "")
         if p.returncode == 0:
+            if scale:
+                # two-stage: survivors of the reduced run are re-run at full size
+                return run_one(prop, mut, tier, clauses, None)
             return "SURVIVED", ""
         hl = [l for l in p.stdout.splitlines() if l.startswith("HARNESS")][:1]
         return "harness-exit-%d" % p.returncode, (hl[0][:200] if hl else p.stdout[-200:])
@@ -216,6 +221,7 @@ def main():
     ap.add_argument("--fn", action="append", default=[], help="restrict to these function names")
     ap.add_argument("--out")
     ap.add_argument("--list", action="store_true")
+    ap.add_argument("--scale", type=float, default=0.2, help="first pass with reduced example counts (0 = off)")
     a = ap.parse_args()
     muts = make_mutants(a.prop)
     if a.fn:
@@ -231,7 +237,7 @@ def main():
         return 0
     res = []
     with ThreadPoolExecutor(a.jobs) as ex:
-        for m, (status, info) in zip(muts, ex.map(lambda m: run_one(a.prop, m, a.tier, a.clause), muts)):
+        for m, (status, info) in zip(muts, ex.map(lambda m: run_one(a.prop, m, a.tier, a.clause, a.scale or None), muts)):
             rec = {"file": m["file"], "fn": m["fn"], "kind": m["kind"], "desc": m["desc"], "status": status, "info": info}
             res.append(rec)
             print("%s %-9s %s:%s %s %s" % (a.prop, status, m["file"].split("/")[-1], m["fn"], m["desc"], info[:110]), flush=True)
